@@ -1,0 +1,137 @@
+// +build verif
+
+// Package verifseam is the seam behind which the model-checking harness under /verif puts the three
+// sources of run-to-run nondeterminism (map iteration order, wall clock, UUIDs). It is compiled only
+// with the build tag "verif" and is referenced only by source files that the harness' rewriter
+// (/verif/tools/genseam) generates at build time and adds through go build -overlay; nothing in a
+// normal build uses it.
+package verifseam
+
+import (
+	"fmt"
+	"reflect"
+	"sort"
+	"time"
+
+	"github.com/google/uuid"
+)
+
+// Point is one dynamic occurrence of a map iteration with at least two keys.
+type Point struct {
+	Occ  int    // running number of the occurrence in this context
+	Site string // file:line of the range statement
+	N    int    // number of keys
+}
+
+// Ctx is the seam state of one replica.
+type Ctx struct {
+	Plan       map[int]int // occurrence -> alternative order (0 or absent = canonical sorted order)
+	Occ        int
+	Log        []Point
+	TimeOffset time.Duration
+	Node       byte
+	uuidSeq    uint32
+	KeepLog    bool
+}
+
+var cur = &Ctx{}
+
+// Use makes c the current context (the harness calls it before every ABCI call of a replica).
+func Use(c *Ctx) {
+	if c == nil {
+		c = &Ctx{}
+	}
+	cur = c
+}
+
+// ID renders a map key canonically.
+func ID(k interface{}) string { return fmt.Sprintf("%v|%T", k, k) }
+
+// Alternatives returns the number of orders offered for n keys (including the canonical one):
+// all n! permutations for n <= 4, otherwise the n rotations plus the reversal.
+func Alternatives(n int) int {
+	switch {
+	case n < 2:
+		return 1
+	case n <= 4:
+		f := 1
+		for i := 2; i <= n; i++ {
+			f *= i
+		}
+		return f
+	default:
+		return n + 1
+	}
+}
+
+func permute(ids []string, alt int) []string {
+	n := len(ids)
+	if alt <= 0 || n < 2 {
+		return ids
+	}
+	out := make([]string, 0, n)
+	if n <= 4 {
+		// alt-th permutation in lexicographic order of positions (factorial number system)
+		rest := append([]string(nil), ids...)
+		f := 1
+		for i := 2; i < n; i++ {
+			f *= i
+		}
+		a := alt
+		for i := n - 1; i >= 1; i-- {
+			q := a / f
+			a = a % f
+			out = append(out, rest[q])
+			rest = append(rest[:q], rest[q+1:]...)
+			f /= i
+		}
+		return append(out, rest[0])
+	}
+	if alt == n { // reversal
+		for i := n - 1; i >= 0; i-- {
+			out = append(out, ids[i])
+		}
+		return out
+	}
+	return append(append(out, ids[alt%n:]...), ids[:alt%n]...)
+}
+
+// Order returns the IDs of m's keys in the order chosen for this occurrence.
+func Order(site string, m interface{}) []string {
+	v := reflect.ValueOf(m)
+	if v.Kind() != reflect.Map {
+		return nil
+	}
+	ids := make([]string, 0, v.Len())
+	for _, k := range v.MapKeys() {
+		ids = append(ids, ID(k.Interface()))
+	}
+	sort.Strings(ids)
+	if len(ids) < 2 {
+		return ids
+	}
+	c := cur
+	occ := c.Occ
+	c.Occ++
+	if c.KeepLog {
+		c.Log = append(c.Log, Point{Occ: occ, Site: site, N: len(ids)})
+	}
+	return permute(ids, c.Plan[occ])
+}
+
+// Now is the replica's wall clock.
+func Now() time.Time { return time.Now().Add(cur.TimeOffset) }
+
+// UUID returns a version-1 style UUID that differs per replica (node byte) and per call.
+func UUID() (uuid.UUID, error) {
+	c := cur
+	c.uuidSeq++
+	var u uuid.UUID
+	t := uint64(Now().UnixNano()/100) + uint64(c.uuidSeq)
+	u[0], u[1], u[2], u[3] = byte(t>>24), byte(t>>16), byte(t>>8), byte(t)
+	u[4], u[5] = byte(t>>40), byte(t>>32)
+	u[6], u[7] = byte(0x10|((t>>56)&0x0f)), byte(t>>48)
+	u[8], u[9] = 0x80|byte(c.uuidSeq>>8)&0x3f, byte(c.uuidSeq)
+	u[10] = c.Node
+	return u, nil
+}
